@@ -374,7 +374,13 @@ def C09(ctx):
                                              # every third trace: the solver works over 70 / 130 labels, the CNF's variables sit on scattered labels
                                              # (two congruent modulo 64); the record is in the compact numbering (monotone embedding)
                                              + (["--labels", 70 if i % 2 else 130] if i % 3 == 2 else []))
-                              for i in range(n)], "TraceUnitProp", "TraceUnitProp.cfg")
+                              for i in range(n)]
+                        # bulk-padded solvers: thousands of satisfied clauses over two fresh variables put the recorded clauses at literal
+                        # occurrences around number 55 / 6 543 (the first primes that do not fit 8 / 16 bits): equal hashes must still
+                        # mean equal residuals (the record shows the recorded clauses only; adversarial driver)
+                        + [("sat_bulk_%d" % i, ["record", "sat", "--seed", ctx.seed * 1000 + 800 + i, "--segments", segs, "--len", 40, "--nmax", 6,
+                                                "--attack", 1, "--wide", 1, "--bulk", 1]) for i in range(2 if ctx.quick else 8 * TH)],
+                        "TraceUnitProp", "TraceUnitProp.cfg")
 
 
 def td_jobs(ctx, n, segs, nmax=5):
